@@ -23,9 +23,3 @@ func VerifFromCoords(X, Y, Z fp.Element) Element {
 func (msm *MSMPrecomp) VerifTable(i int) (int, [][]bandersnatch.PointExtendedNormalized) {
 	return msm.precompPoints[i].windowSize, msm.precompPoints[i].windows
 }
-
-// VerifBatchProjToAffine exposes the batch conversion used by MultiExp
-// (verification only).
-func VerifBatchProjToAffine(points []bandersnatch.PointProj) []bandersnatch.PointAffine {
-	return batchProjToAffine(points)
-}
